@@ -21,7 +21,8 @@ ASSUMPTIONS = [
     "NumPy backend only; LOBPCG is excluded (float32 scipy delegate with unkeyed randomness, see C17)",
 ]
 
-FAMILIES = ["sa_def", "sa_indef", "sa_def_c", "sa_indef_c", "gen_pairs", "gen_c", "Diagonal", "Diagonal_c", "TriLower", "TriUpper", "TriLower_c", "TriUpper_c", "Identity"]
+FAMILIES = ["sa_def", "sa_indef", "sa_def_c", "sa_indef_c", "gen_pairs", "gen_c", "Diagonal", "Diagonal_c", "TriLower", "TriUpper", "TriLower_c", "TriUpper_c", "Identity",
+            "sa_indef@tiny", "sa_indef_c@huge", "gen_pairs@tiny", "gen_c@huge"]
 ALGS = ["omitted", "Auto", "Eigh", "Eig", "Lanczos_n", "Lanczos_n2", "Lanczos_def", "Arnoldi_n", "Arnoldi_n2", "Arnoldi_def", "PowerIteration"]
 
 
@@ -32,6 +33,12 @@ def moduli(n):
 
 def family(fam, n, seed):
     """(operator, dense matrix, spectrum)"""
+    base, _, scale = fam.partition("@")  # "@tiny" / "@huge": the same family at scale 2^-45 / 2^40 (eigenpairs scale with the operator)
+    if scale:
+        A0, M0, lam0 = family(base, n, seed)
+        f = {"tiny": 2.0**-45, "huge": 2.0**40}[scale]
+        A1 = ops.Dense(M0 * f)
+        return (cola.SelfAdjoint(A1) if base.startswith("sa_") else A1), M0 * f, lam0 * f
     m = moduli(n)
     g = P.rng(seed, "c10", fam, n)
     if fam in ("sa_def", "sa_def_c"):
@@ -137,7 +144,7 @@ def run_case(case, seed):
         sa = fam.startswith("sa_")
         power = algname == "PowerIteration"
         dom = lam[np.argmax(np.abs(lam))]
-        real_with_complex_dominant = (not np.iscomplexobj(M)) and abs(complex(dom).imag) > 1e-12
+        real_with_complex_dominant = (not np.iscomplexobj(M)) and abs(complex(dom).imag) > 1e-12 * abs(complex(dom))
         combos = [(1, "LM")] if power else [(k, w) for k in range(1, n + 1) for w in ("LM", "SM")]
         mods = np.sort(np.abs(lam))
         slow_power = n > 1 and (mods[-2] / mods[-1])**100 > 1e-4  # Auto's PowerIteration(max_iter=100) cannot converge for this gap
@@ -253,7 +260,7 @@ def case_signature(case):
 def describe(tier, seed):
     return {
         "bound": "families {self-adjoint definite / indefinite (real, complex), general real with complex-conjugate pairs, complex, Diagonal "
-                 "unsorted with negatives (real, complex), Triangular lower / upper, Identity} x n in " + str(_DESC.get("sizes"))
+                 "unsorted with negatives (real, complex), Triangular lower / upper, Identity; self-adjoint indefinite and general families at scale 2^-45 / 2^40} x n in " + str(_DESC.get("sizes"))
                  + " x ALL 1<=k<=n x {LM, SM} x 11 algorithm settings (iteration caps n, n+2, default 1000), eigmax / eigmin",
         "alphabet": _DESC,
         "oracle": "returned values = the k largest / smallest-modulus eigenvalues of the prescribed spectrum (multiset, 1e-7 ||A||); every pair "
